@@ -15,7 +15,7 @@ import (
 func init() {
 	register("C03", &propDef{
 		Title: "What is shipped is decided by .terraformignore semantics on archive paths",
-		Rules: []func(*Checker){ruleC03Emit, ruleC03Bundle, ruleC03Prune, ruleC03Arg, ruleC03Meta, ruleC03Glob, ruleC03LastWins, ruleC03Parse, ruleC03Off, ruleC03Shared},
+		Rules: []func(*Checker){ruleC03Emit, ruleC03Bundle, ruleC03Prune, ruleC03Arg, ruleC03Meta, ruleC03Glob, ruleC03LastWins, ruleC03Parse, ruleC03Off, ruleC03Shared, ruleC03RuleFile},
 		NotDecided: []string{
 			"the meaning of a whole pattern: composition of the translated fragments, the '**' forms beyond 'can cross separators', anchoring arithmetic (properties of run-time strings); C03.glob decides only the constant fragments emitted for '?', '*' and ordinary characters",
 			"the content of the built-in default rule table",
@@ -1288,4 +1288,32 @@ func (p *Prog) sliceWithControl(v ssa.Value) map[ssa.Value]bool {
 	}
 	add(v, 0)
 	return out
+}
+
+// C03.rulefile — the rule file is examined through links.
+func ruleC03RuleFile(c *Checker) {
+	const R = "C03.rulefile"
+	c.rule(R, "Where a loader examines the rule file before opening it (to refuse a directory or a fifo named .terraformignore), it does so with os.Stat — which follows a symbolic link, as the os.Open after it does — not os.Lstat: a rule file that is a link to a regular file is otherwise taken for 'not a regular file', the loader falls back to the built-in rules (Pack) or fails the build (bundle), and every file only a user rule excludes is shipped.", 2)
+	p := c.P
+	n := 0
+	for _, fn := range p.Funcs {
+		pk := fn.Package()
+		if pk == nil || (pk.Pkg.Path() != p.PkgPath("slug") && pk.Pkg.Path() != p.PkgPath("ignorefiles")) {
+			continue
+		}
+		for _, ci := range callsTo(fn, func(o *types.Func) bool { return isFunc(o, "os", "Stat") || isFunc(o, "os", "Lstat") }) {
+			named := false
+			for w := range p.backSlice(ci.Common().Args[0], 0) {
+				if k, ok := constString(w); ok && strings.Contains(k, ".terraformignore") {
+					named = true
+				}
+			}
+			if !named {
+				continue
+			}
+			n++
+			c.check(isFunc(calleeObj(ci), "os", "Stat"), R, p.FuncName(fn), "rule file examined with Stat", p.Pos(ci.Pos()), "os.Stat", "the rule file is examined with os.Lstat: a .terraformignore that is a symbolic link to a regular file is classed as not regular, so the user's rules are not loaded — Pack silently applies only the built-in rules and ships what the user excluded")
+		}
+	}
+	_ = n
 }
